@@ -398,11 +398,13 @@ func Check(tier, id string) int {
 			Trouble("%s", r.trouble)
 		}
 		// determinism self-test on a sample of this scenario's runs
-		n, mm := determinism(p, sc, bins[sc.Race], seed, tier, det, r.next)
+		n, mm := determinism(p, sc, bins[sc.Race], seed, tier, det, r.next, a)
 		detPairs += n
 		detMismatch = append(detMismatch, mm...)
 	}
-	if len(detMismatch) > 0 {
+	if len(detMismatch) > 0 && len(a.violations) == 0 {
+		// (a program with a data race is not deterministic; when the runs
+		// themselves reported violations those are the verdict)
 		Trouble("determinism self-test failed (same seed, different execution):\n%s", strings.Join(detMismatch, "\n"))
 	}
 	if a.runs == 0 {
@@ -420,7 +422,13 @@ func Check(tier, id string) int {
 		}
 		byClass[c] = append(byClass[c], v)
 	}
-	sort.Strings(classes)
+	sort.Slice(classes, func(i, j int) bool {
+		ri, rj := strings.HasPrefix(classes[i], "race/"), strings.HasPrefix(classes[j], "race/")
+		if ri != rj {
+			return !ri // semantic classes first, race pairs after
+		}
+		return classes[i] < classes[j]
+	})
 	exit := 0
 	reported := 0
 	var violSamples []any
@@ -434,9 +442,16 @@ func Check(tier, id string) int {
 			knownCount += len(recs)
 			continue
 		}
-		if reported >= 4 {
-			// still a violation; do not spend the budget minimising more
-			fmt.Printf("VIOLATION property=%s replay=%s\n", id, "(not minimised: class "+c+")")
+		if reported >= 3 {
+			// still a violation; do not spend the budget minimising more:
+			// the unminimised record is a valid replay file
+			path := filepath.Join(VerifDir, "replays", fmt.Sprintf("%s-%s-%d-%d.json", rec.Prop, rec.Scenario, rec.Seed, rec.Run))
+			if b, err := json.MarshalIndent(rec, "", " "); err == nil && !rec.Regenerate && len(rec.Trace) > 0 {
+				os.WriteFile(path, b, 0o644)
+				fmt.Printf("  class: %s (not minimised)\nVIOLATION property=%s replay=%s\n", c, id, path)
+			} else {
+				fmt.Printf("  class: %s (no replay file written)\n", c)
+			}
 			exit = 1
 			continue
 		}
@@ -468,7 +483,7 @@ func Check(tier, id string) int {
 
 // determinism re-executes a sample of runs in fresh processes at other
 // GOMAXPROCS values and compares signature, log hash and violation class.
-func determinism(p PropCfg, sc ScenCfg, bin string, seed int64, tier string, n, upto int) (int, []string) {
+func determinism(p PropCfg, sc ScenCfg, bin string, seed int64, tier string, n, upto int, extra *agg) (int, []string) {
 	if n <= 0 || upto <= 0 {
 		return 0, nil
 	}
@@ -487,6 +502,9 @@ func determinism(p PropCfg, sc ScenCfg, bin string, seed int64, tier string, n, 
 				c := ""
 				if r.Result.Violation != nil {
 					c = r.Result.Violation.Class
+					extra.mu.Lock()
+					extra.violations = append(extra.violations, r)
+					extra.mu.Unlock()
 				}
 				out[r.Run] = key{r.Result.Sig, r.Result.LogHash, c}
 				last = r.Run
@@ -518,6 +536,11 @@ func determinism(p PropCfg, sc ScenCfg, bin string, seed int64, tier string, n, 
 	for run := 0; run < n; run++ {
 		a, b, c := res[0][run], res[1][run], res[2][run]
 		pairs += 2
+		if a.class != "" || b.class != "" || c.class != "" {
+			// a violating run: reported through the normal path (the
+			// re-executions' records were added to the aggregate)
+			continue
+		}
 		if a != b || a != c {
 			mm = append(mm, fmt.Sprintf("  %s/%s seed=%d run=%d: GOMAXPROCS=1 %v | 4 %v | 16 %v", p.ID, sc.Name, seed, run, a, b, c))
 		}
@@ -549,9 +572,9 @@ func minimiseAndConfirm(p PropCfg, rec sim.Record, bins map[bool]string, tier st
 	b, _ := json.Marshal(rec)
 	os.WriteFile(raw, b, 0o644)
 	final := filepath.Join(VerifDir, "replays", fmt.Sprintf("%s-%s-%d-%d.json", rec.Prop, rec.Scenario, rec.Seed, rec.Run))
-	budget := "45"
+	budget := "30"
 	if tier == "thorough" {
-		budget = "180"
+		budget = "120"
 	}
 	cmd := exec.Command(bin, "shrink", "-file", raw, "-out", final, "-budget", budget, "-tier", tier)
 	cmd.Env = env(append(raceEnv(sc.Race, 201), "GOMAXPROCS="+strconv.Itoa(sc.Procs))...)
